@@ -1,10 +1,10 @@
 CONSTANTS
-  Conns = {1, 2, 3, 4}
+  Conns = {1, 2, 3, 4, 5, 6}
   IDMod = 65536
   MaxChats = 2
   MaxSteps = 99
-  GenDepth = 30
-  Ops = {"connect","login","agreed","close","chat","invitenew","invite","reject","join","leave","subject","setuser"}
+  GenDepth = 34
+  Ops = {"churn","connect","login","agreed","close","chat","invitenew","invite","reject","join","leave","subject","setuser"}
   Thin = TRUE
 INIT Init
 NEXT Next
